@@ -405,12 +405,14 @@ def r03_13(ctx, rid: str = "R03.13") -> None:
     if not units:
         ctx.note(f"{rid}: the awaitify wrappers are not found under their names; not checked")
         return
+    from .common import keywords_cannot_collide
     for u in units:
         a = u.node.args
         ok_sig = a.vararg is not None and a.kwarg is not None
         ctx.check(ok_sig, rid, u, u.node.name, "the wrapper accepts positional and keyword arguments (*args, **kwargs)")
         if not ok_sig:
             continue
+        keywords_cannot_collide(ctx, rid, u, "the wrapped callable")
         cfg = cfg_of(u)
         for n in cfg.nodes:
             if n.kind != "call" or n.tag:
@@ -424,7 +426,7 @@ def r03_13(ctx, rid: str = "R03.13") -> None:
             ctx.check(ok, rid, u, n.ast, "the wrapped callable is called with (*args, **kwargs) exactly as the wrapper was", node=n)
 
 
-def r03_12(ctx) -> None:
+def r03_12(ctx, modules=None) -> None:
     """A callable argument is a ``def``, an ``async def``, a partial or any object with ``__call__`` - and such an object
     may well be falsy (``__len__`` / ``__bool__``: a memoising callable that is empty so far).  "Was a callable given?" is
     decided by identity with None, never by its truth value."""
@@ -433,6 +435,8 @@ def r03_12(ctx) -> None:
                        "was given is decided by `is None`")
     sites = 0
     for u in real_units(ctx):
+        if modules is not None and u.module.short not in modules:
+            continue
         cfg = cfg_of(u)
         for n in cfg.nodes:
             if n.kind != "op" or n.tag or n.info.get("op") not in ("truth", "not"):
@@ -699,9 +703,15 @@ class _AdapterOps:
         if last == "isinstance" and len(node.args) == 2 and len(args) == 2:
             return self.sc.get("isinstance", {}).get((args[0], norm(node.args[1]).split(".")[-1]), UNKNOWN_)
         if last == "iscoroutinefunction" and args:
-            return self.sc.get("iscoroutinefunction", UNKNOWN_)
+            if args[0] == "FUNC" or "iscoroutinefunction" not in self.sc:
+                return self.sc.get("iscoroutinefunction", UNKNOWN_)
+            # asked about something derived from the callable (what it wraps, an attribute of it): that says nothing about
+            # what calling the callable itself returns, so the scenario answers the opposite
+            return not self.sc["iscoroutinefunction"]
         if last == "cast" and len(args) == 2:
             return args[1]
+        if r.kind == "stdlib" and last in ("unwrap", "getattr") and args and args[0] == "FUNC":
+            return ("derived", last, "FUNC")
         if r.kind == "lib":
             u_ = self.ctx.pkg.lib_unit(r.qual)
             if u_ is not None:
@@ -736,7 +746,7 @@ def r03_3(ctx) -> None:
     # --- aiter: the asynchronous protocol wins; everything else goes through the sync wrapper
     u = ctx.unit("_core.aiter")
     p = u.param_names()[0]
-    wrapper = ctx.unit("_core._aiter_sync").node.name
+    wrapper = ctx.pkg.canonical(ctx.unit("_core._aiter_sync")).split(".")[-1]  # (the model names library units by their anchor)
     for is_async in (True, False):
         ctx.count("adapter_cells")
         outs = _adapter_run(ctx, u, {"isinstance": {("SUBJECT", "AsyncIterable"): is_async, ("SUBJECT", "AsyncIterator"): is_async}},
@@ -753,7 +763,7 @@ def r03_3(ctx) -> None:
     # the wrapper as a table: every item of the synchronous iterable, once, in order (abstract evaluation)
     from . import tooltables
     tooltables.sync_wrapper_table(ctx, "R03.3")
-    ctx.floor("adapter_table_cells_decided", 4)
+    ctx.floor("adapter_table_cells_decided", 8)
     # ... and it hands the iterable to Python's own iteration protocol (a ``for`` loop or iter()), so that
     # iterators and __getitem__ sequences both work
     loops = [n for n in own_nodes(s.node) if isinstance(n, ast.For) and norm(n.iter) == s.param_names()[0]]
